@@ -362,6 +362,17 @@ def F47():
     return before == after, f"fitted module's counters before / after wrapping it in a DualVigilanceART: {before} / {after}"
 
 
+def F48():
+    from artlib import ARTMAP
+    X, Y = cc(np.array([[.1], [.9], [.5]])), cc(np.array([[.2], [.8], [.2]]))
+    with quiet():
+        a, b = FuzzyART(.9, 1e-3, 1.), FuzzyART(.9, 1e-3, 1.)
+        b.fit(cc(np.array([[.5], [.6]])))
+        h = ARTMAP(a, b).partial_fit(X[:2], Y[:2]).partial_fit(X[2:], Y[2:])
+    got = (len(h.module_b.W), [int(t) for t in h.labels_])
+    return got == (2, [0, 1, 0]), f"ARTMAP over a previously used module_b, two partial_fit batches: (B categories, labels) = {got}, one fit gives (2, [0, 1, 0])"
+
+
 ALL = {k: v for k, v in list(globals().items()) if k[0] == "F" and k[1:3].isdigit()}
 
 if __name__ == "__main__":
